@@ -76,18 +76,7 @@ def check(ctx, rep):
     fe_first = None
     rep.expect('R07.b', under_abort, 'clear-under-abort', 'Slab::clear is reached only from an aborted-flag edge',
                'run_until_settled clears the task slab outside the aborted branch')
-    if removes:
-        rm = removes[0][0]
-        stores = [bb for bb, t in rs.calls(*c06.ATOMIC_STORE) if 'finished' in c01.field_of_receiver(rs, t['args'][0])]
-        wakes = [bb for bb, t in rs.calls('crux_core::command::executor::Task::wake_join_handles')]
-        ok = len(stores) == 1 and len(wakes) == 1 and rs.dominates(rm, stores[0]) and rs.dominates(stores[0], wakes[0]) and stores[0] != wakes[0]
-        if ok:
-            st = rs.blocks[stores[0]]['t']
-            ok = st['args'][1].get('v') == 1 and c06.ordering_of(rs, st['args'][2]) in ('Release', 'SeqCst', 'AcqRel')
-            # the stored flag belongs to the removed task
-            ok = ok and any(o.kind == 'call' and o.bb == rm for o in origins(rs, st['args'][0]))
-        rep.expect('R07.b', ok, 'finish-then-notify', 'remove -> task.finished.store(true, Release) -> task.wake_join_handles()',
-                   'run_until_settled no longer publishes `finished` (Release) on the removed task before waking its join handles')
+    check_finish_notify(rep, 'R07.b', core)
     # producers of Completed / Cancelled in run_task
     comp = [bb for bb, i, s in rt.stmts('assign') if s['rv']['k'] == 'agg' and path_matches(s['rv'].get('adt'), 'crux_core::command::executor::TaskState')
             and s['rv']['variant'] == 'Completed']
@@ -202,6 +191,55 @@ def check(ctx, rep):
     else:
         c05.check_pending_wakers(rep, 'R07.d', core, time)
     rep.assume('NOT DECIDED: exactness of the waker-count heuristic for arbitrary user futures')
+
+
+def check_finish_notify(rep, rid, core):
+    """every task that leaves the slab — finished, aborted or evicted — has `finished` published (store true, >= Release) and its join
+    handles woken.  Accepted placements: after the removal in run_until_settled (covering every removed task at once), or in run_task
+    on every path that produces a terminal state (Completed / Cancelled); helper functions are followed."""
+    from rules.common import Summaries
+    rs = c06.method(core, 'crux_core::command::Command', 'run_until_settled')
+    rt = c06.method(core, 'crux_core::command::Command', 'run_task')
+    if rs is None or rt is None:
+        rep.missing(rid, 'Command executor functions')
+        return
+    sm = Summaries([core])
+    WAKE = ['crux_core::command::executor::Task::wake_join_handles']
+    # the function(s) that call wake_join_handles directly publish `finished` first
+    direct = [g for g in core.built if not g.j.get('exp') and list(g.calls(*WAKE))]
+    published = bool(direct)
+    for g in direct:
+        stores = [(bb, t) for bb, t in g.calls(*c06.ATOMIC_STORE) if 'finished' in c01.field_of_receiver(g, t['args'][0])]
+        for wb, wt in g.calls(*WAKE):
+            ok = any(g.dominates(sb_, wb) and sb_ != wb and st_['args'][1].get('v') == 1 and
+                     c06.ordering_of(g, st_['args'][2]) in ('Release', 'SeqCst', 'AcqRel') for sb_, st_ in stores)
+            published = published and ok
+    rep.expect(rid, published, 'finish-then-notify', 'finished.store(true, >= Release) dominates every wake_join_handles()',
+               'join handles are woken without `finished` having been published (Release) first: a woken JoinHandle would read false and sleep again')
+    # placement 1: after the removal in run_until_settled
+    removes = [bb for bb, t in rs.calls('slab::Slab::remove', 'slab::Slab::try_remove') if 'executor::Task' in ' '.join(t.get('targs') or [])]
+    wakes_rs = sm.sites(rs, WAKE, 'must')
+    rets = rs.return_blocks()
+    at_removal = bool(removes) and bool(wakes_rs) and all(
+        any(rs.dominates(rm, w) and rm != w for w in wakes_rs) and
+        # ... on every path from the removal onwards (to the next iteration or the return)
+        not any(x in rs.reachable_after(rm, removed_blocks=wakes_rs) for x in rets + [rm]) for rm in removes)
+    # placement 2: in run_task, on every path that produces a terminal state
+    wakes_rt = sm.sites(rt, WAKE, 'must')
+    producers = [bb for bb, i, s_ in rt.stmts('assign') if s_['rv']['k'] == 'agg' and path_matches(s_['rv'].get('adt'), 'crux_core::command::executor::TaskState')
+                 and s_['rv']['variant'] in ('Completed', 'Cancelled')]
+    rets_t = rt.return_blocks()
+    uncovered = []
+    for pb in producers:
+        before = any(rt.dominates(w, pb) for w in wakes_rt)
+        after = bool(wakes_rt) and not any(x in rt.reachable_after(pb, removed_blocks=wakes_rt) for x in rets_t) and pb not in wakes_rt
+        if not (before or after):
+            uncovered.append(rt.where(pb))
+    in_run_task = bool(producers) and not uncovered
+    rep.expect(rid, at_removal or in_run_task, 'every-leaving-task-notifies',
+               'after the removal in run_until_settled' if at_removal else 'on every terminal path of run_task',
+               'a task can leave the command (finished, aborted or evicted) without its join handles being woken%s: a task awaiting its JoinHandle '
+               'is never polled again' % (' (uncovered terminal states at %s)' % uncovered if uncovered and wakes_rt else ''))
 
 
 def check_is_done(rep, rid, core):
